@@ -294,13 +294,13 @@ Definition spec_hash_ok (vs : list edge_view) (v : edge_view) : bool :=
 Definition spec_hashes_ok (vs : list edge_view) : bool := forallb (spec_hash_ok vs) vs.
 
 (* C01: newest delivered point per identity.  [newest cur p]: fold step over deliveries in order *)
+Fixpoint newest_ins (acc : list point) (p : point) : list point :=
+  match acc with
+  | [] => [p]
+  | q :: acc' => if same_ident q p then (if (p_time q <=? p_time p)%Z then p else q) :: acc' else q :: newest_ins acc' p
+  end.
 Definition newest_step (acc : list point) (p : point) : list point :=
-  let p := with_key p (norm_key (p_key p)) in
-  let fix go (acc : list point) :=
-    match acc with
-    | [] => [p]
-    | q :: acc' => if same_ident q p then (if (p_time q <=? p_time p)%Z then p else q) :: acc' else q :: go acc'
-    end in go acc.
+  newest_ins acc (with_key p (norm_key (p_key p))).
 Definition newest (init : list point) (delivered : list point) : list point :=
   sort_points (fold_left newest_step delivered init).
 
